@@ -33,8 +33,89 @@ func calleeName(call ssa.CallInstruction) string {
 		}
 	case *ssa.Builtin:
 		return "builtin." + v.Name()
+	case *ssa.UnOp:
+		// a call through a package-level function variable that is only ever the function its initialiser names
+		// (var now = time.Now — a seam for tests): the call is a call of that function
+		if g, ok := v.X.(*ssa.Global); ok && v.Op == token.MUL {
+			if f := globalFuncValue(g); f != nil {
+				return funcName(f)
+			}
+		}
 	}
 	return ""
+}
+
+var globalFuncMemo = map[*ssa.Global]*ssa.Function{}
+
+// globalFuncValue: the one function a package-level variable of function type holds (assigned by the package
+// initialiser, never written anywhere else in the module); nil if there is no such function.
+func globalFuncValue(g *ssa.Global) *ssa.Function {
+	if f, done := globalFuncMemo[g]; done {
+		return f
+	}
+	globalFuncMemo[g] = nil
+	if g.Pkg == nil {
+		return nil
+	}
+	if _, isFn := g.Type().(*types.Pointer).Elem().Underlying().(*types.Signature); !isFn {
+		return nil
+	}
+	var val *ssa.Function
+	n := 0
+	for _, m := range g.Pkg.Members {
+		fn, isFn := m.(*ssa.Function)
+		if !isFn {
+			continue
+		}
+		var all []*ssa.Function
+		var collect func(f *ssa.Function)
+		collect = func(f *ssa.Function) {
+			all = append(all, f)
+			for _, a := range f.AnonFuncs {
+				collect(a)
+			}
+		}
+		collect(fn)
+		for _, f2 := range all {
+			eachInstr(f2, func(in ssa.Instruction) {
+				if st, ok := in.(*ssa.Store); ok && st.Addr == ssa.Value(g) {
+					n++
+					if f3 := closureFn(unconv(st.Val)); f3 != nil && f2.Name() == "init" {
+						val = f3
+					} else {
+						val = nil
+						n += 100
+					}
+				}
+			})
+		}
+	}
+	// methods of the package's types may write it too
+	if g.Pkg.Prog != nil {
+		for _, mem := range g.Pkg.Members {
+			tp, isT := mem.(*ssa.Type)
+			if !isT {
+				continue
+			}
+			for _, recv := range []types.Type{tp.Type(), types.NewPointer(tp.Type())} {
+				ms := g.Pkg.Prog.MethodSets.MethodSet(recv)
+				for i := 0; i < ms.Len(); i++ {
+					if mf := g.Pkg.Prog.MethodValue(ms.At(i)); mf != nil && mf.Blocks != nil {
+						eachInstr(mf, func(in ssa.Instruction) {
+							if st, ok := in.(*ssa.Store); ok && st.Addr == ssa.Value(g) {
+								n += 100
+							}
+						})
+					}
+				}
+			}
+		}
+	}
+	if n == 1 && val != nil {
+		globalFuncMemo[g] = val
+		return val
+	}
+	return nil
 }
 
 func funcName(f *ssa.Function) string {
@@ -1254,6 +1335,21 @@ func factStrsDeep(fn *ssa.Function, site ssa.Instruction) map[string]bool {
 			idx = ex.Index
 			v = ex.Tuple
 		}
+		// a comparison of a helper's integer result with a constant (i := indexOf(...); i < 0): the returns whose
+		// constant result contradicts the known outcome cannot be the one taken
+		var cmp *ssa.BinOp
+		cmpSwapped := false
+		if bo, isB := v.(*ssa.BinOp); isB {
+			if _, isK := constInt(bo.Y); isK {
+				cmp, v = bo, bo.X
+			} else if _, isK := constInt(bo.X); isK {
+				cmp, v, cmpSwapped = bo, bo.Y, true
+			}
+			if ex, ok := v.(*ssa.Extract); ok {
+				idx = ex.Index
+				v = ex.Tuple
+			}
+		}
 		call, ok := v.(*ssa.Call)
 		if !ok {
 			continue
@@ -1274,7 +1370,40 @@ func factStrsDeep(fn *ssa.Function, site ssa.Instruction) map[string]bool {
 				decided = false
 				return
 			}
-			if k, isC := vals[idx].(*ssa.Const); isC && k.Value != nil && k.Value.Kind() == constant.Bool {
+			if cmp != nil {
+				if rk, isK := constInt(vals[idx]); isK {
+					var ck int64
+					a, b := rk, int64(0)
+					if cmpSwapped {
+						ck, _ = constInt(cmp.X)
+						a, b = ck, rk
+					} else {
+						ck, _ = constInt(cmp.Y)
+						b = ck
+					}
+					res, known := false, true
+					switch cmp.Op {
+					case token.LSS:
+						res = a < b
+					case token.LEQ:
+						res = a <= b
+					case token.GTR:
+						res = a > b
+					case token.GEQ:
+						res = a >= b
+					case token.EQL:
+						res = a == b
+					case token.NEQ:
+						res = a != b
+					default:
+						known = false
+					}
+					if known && res != fc.truth {
+						return // this return cannot be the one taken
+					}
+				}
+			}
+			if k, isC := vals[idx].(*ssa.Const); isC && k.Value != nil && k.Value.Kind() == constant.Bool && cmp == nil {
 				if constant.BoolVal(k.Value) != fc.truth {
 					return // this return cannot be the one taken
 				}
